@@ -21,6 +21,8 @@ A payload descriptor is a dict:
                 ("service-drop",)             drop the reference to the service created last
                 ("adopt-many", descriptor, k) adopt the very same callable k times
                 ("adopt-own-loop", descriptor)   adopt from inside asyncio.run() of this thread
+                ("forever-sections", period)  heartbeat loop with a scheduling point inside each step
+                ("repeat-execute", descriptor, period)   execute another payload again and again
                 ("stubborn", k, period)       (asyncio) heartbeat loop absorbing the first k cancellations
                 ("section-adopt", descriptor) adopt another payload from inside a section
                 ("call", name)                call env.shared[name](env)
@@ -132,6 +134,8 @@ class Kit:
         self.runtime = runtime
         #: objects that left payloads: id -> ("raise"|"return", object)
         self.left = {}
+        #: every object a payload returned, per id (several calls of one callable)
+        self.returned = {}
         self.sections = {"asyncio": 0, "trio": 0}
 
     # -- context -------------------------------------------------------------------
@@ -165,9 +169,9 @@ class Kit:
             return plain
         return payload
 
-    def submit(self, desc, how="adopt"):
+    def submit(self, desc, how="adopt", payload=None):
         """adopt / execute ``desc`` through the public API; returns what the call gave"""
-        payload = self.payload(desc)
+        payload = payload if payload is not None else self.payload(desc)
         args, kwargs = tuple(desc.get("args", ())), dict(desc.get("kwargs", {}))
         flavour = FLAVOURS[desc["flavour"]]
         call = self.runtime.adopt if how == "adopt" else self.runtime.execute
@@ -336,7 +340,17 @@ class Kit:
                     elif op == "return":
                         value = make_value(step[1])
                         kit.left[desc["id"]] = ("return", value)
+                        kit.returned.setdefault(desc["id"], []).append(value)
                         return value
+                    elif op == "forever-sections":
+                        while True:
+                            await asyncio.sleep(step[1])
+                            kit.env.log("beat", id=desc["id"])
+                            kit.env.point("mid-step")
+                    elif op == "repeat-execute":
+                        while True:
+                            kit.submit(step[1], "execute")
+                            await asyncio.sleep(step[2])
                     elif op == "execute":
                         # a blocking call: from a coroutine of another flavour only
                         kit.submit(step[1], "execute")
@@ -381,7 +395,17 @@ class Kit:
                     elif op == "return":
                         value = make_value(step[1])
                         kit.left[desc["id"]] = ("return", value)
+                        kit.returned.setdefault(desc["id"], []).append(value)
                         return value
+                    elif op == "forever-sections":
+                        while True:
+                            await trio.sleep(step[1])
+                            kit.env.log("beat", id=desc["id"])
+                            kit.env.point("mid-step")
+                    elif op == "repeat-execute":
+                        while True:
+                            kit.submit(step[1], "execute")
+                            await trio.sleep(step[2])
                     elif op == "execute":
                         kit.submit(step[1], "execute")
                     else:
@@ -446,6 +470,7 @@ class Kit:
                     elif op == "return":
                         value = make_value(step[1])
                         kit.left[desc["id"]] = ("return", value)
+                        kit.returned.setdefault(desc["id"], []).append(value)
                         kit.env.log("left", id=desc["id"], how="return", value=value)
                         return value
                     elif op == "execute":
